@@ -22,10 +22,27 @@ C04 search
     sampler compared pairwise for coinciding streams; every draw attributed to its chain's
     own spawned generator.
 
+    Proposals (births, nested inner proposals) that were USED before the sampler got them — a
+    script that tries its proposals out: generator read, jump, logpdf, birth, update fed by a
+    scripted chain — and re-used for a second sampler: the run must equal the run with untouched
+    objects (uses that leave the proposal's parameters alone) and must not depend on the generator
+    the objects had before (all uses), in one interpreter and across sessions.  The sessions run
+    the code under test unpatched (the draw log of the correspondence, and other checks, patch
+    `BaseRandom.random_generator` from outside and would mask a change inside it); every session
+    verifies that.
+
 C07 search
     full per-chain histories under pool=None vs a pool whose map deep-copies its arguments,
-    chunk-wise copies, reversed / shuffled in-process evaluation, multiprocessing.Pool(k);
-    perturbing one chain's start and diffing every other chain.
+    chunk-wise copies, reversed / shuffled in-process evaluation, multiprocessing.Pool(k), with
+    and without reset_after_swap; perturbing one chain's start and diffing every other chain.
+    State that no pickle carries: a fresh interpreter (`streams.py poolfirst`) creates its pools
+    first (fork and spawn; nothing of epsie imported yet), then builds samplers with
+    reset_after_swap, adaptive proposals and a dynamic ladder and compares serial with pooled runs
+    (default chunks, chunks of 2, tasks submitted in reverse); after a reset every adaptive proposal
+    of a chain must be back at the values IT was constructed with (several proposals of one support
+    class with different settings in one chain); unrelated proposals constructed in the process
+    (before / after the sampler / between runs) must change nothing; the class-level attributes of
+    the package are compared before and after.
 
 Oracles are exact (bit-identical digests, object identity); nothing statistical.
 """
@@ -471,18 +488,241 @@ def c04_cfgs(tier, seed):
     return out
 
 
-def run_one(cfg, opts, niter):
-    """Build from scratch, start, run; everything a user can read afterwards."""
+def run_one(cfg, opts, niter, before_sampler=None, user_props=None):
+    """Build from scratch, start, run; everything a user can read afterwards.
+    `before_sampler(props, names)`: what the user does with the proposal objects before the sampler
+    gets them; `user_props`: build the sampler from these existing objects."""
     import logging
     logging.disable(logging.WARNING)
     names = [G.pname(i) for i in range(cfg['nparams'])]
     model = G.QuadModel(names, blobs=opts.get('blobs', False))
     s, info = G.build_real(cfg, family=opts.get('family', 'normal'), model=model,
-                           swap_interval=opts.get('swap_interval', 1), rng=random.Random(9))
+                           swap_interval=opts.get('swap_interval', 1), rng=random.Random(9),
+                           before_sampler=before_sampler, user_props=user_props,
+                           reset_after_swap=opts.get('reset_after_swap', False))
     s.start_position = G.start_positions(cfg)
     s.run(niter // 2)
     s.run(niter - niter // 2)
     return s, info
+
+
+# --------------------------------------------------------------------------
+# C04: proposals that were used before the sampler got them
+# --------------------------------------------------------------------------
+#
+# "A function of the seed, the configuration and the start positions only": which generator a
+# proposal object drew from before it was handed to the sampler is none of these.  A script that
+# tries its proposals out (a jump, a birth, a density, a look at `random_generator`) uses the
+# proposal's own entropy-seeded generator; the sampler then deep-copies the object per chain and
+# seats the chain's generator on every copy.  Oracles (all bit-exact):
+#   draw     uses that leave the proposal's parameters alone (generator reads, jump, logpdf, birth):
+#            the run equals the run with pristine objects, and so does a second sampler built
+#            afterwards from the SAME objects;
+#   update   uses that also change the proposal (jump + `update` fed by a scripted chain, so that
+#            nothing depends on the numbers drawn): the run is the same whether the object's own
+#            generator was entropy-seeded or seated by the user with seed 5 or 6, and the same for a
+#            second sampler built from the same objects;
+# in one interpreter and across sessions.
+
+class ScriptedChain:
+    """What `update` of the elementary proposals reads from a chain; nothing depends on a draw."""
+    _hasblobs = False
+
+    def __init__(self, params, k):
+        self.iteration = k + 1
+        acc = numpy.zeros(k + 1, dtype=[('acceptance_ratio', float), ('accepted', bool)])
+        for i in range(k + 1):
+            acc[i] = (((i * 7 + 3) % 10) / 10.0, (i * 5 + 1) % 3 != 0)
+        self.acceptance = acc
+        self.current_position = {p: 0.25 + 0.125 * j + 0.0625 * ((k * 3) % 5) for j, p in enumerate(params)}
+        self.proposed_position = {p: 0.5 + 0.125 * j - 0.0625 * ((k * 2) % 7) for j, p in enumerate(params)}
+        self.current_stats = {'logl': -1.0 - 0.125 * k, 'logp': 0.0}
+
+    def __len__(self):
+        return self.iteration
+
+
+def _pt(params, k=0):
+    return {p: 0.375 + 0.125 * j + 0.03125 * k for j, p in enumerate(params)}
+
+
+def _use_leaf(pr, ndraws, update):
+    _ = pr.random_generator
+    _ = pr.random_state
+    n = 0
+    for k in range(ndraws):
+        x = _pt(pr.parameters, k)
+        y = pr.jump(x)
+        pr.logpdf(y, x)
+        n += 2
+        if update:
+            pr.update(ScriptedChain(pr.parameters, k))
+            n += 1
+    return n
+
+
+def preuse(props, names, mode='draw', ndraws=1, gen=None):
+    """Use every object the sampler is going to get.  mode 'draw' | 'update'; `gen`: None (the
+    object's own entropy-seeded generator) or an integer the user seats first.  Returns the number
+    of calls made."""
+    n = 0
+    for pr in props:
+        if gen is not None:
+            pr.bit_generator = gen
+        if not getattr(pr, 'transdimensional', False):
+            n += _use_leaf(pr, ndraws, mode == 'update')
+            continue
+        _ = pr.random_generator
+        _ = pr.random_state
+        mp = pr.model_proposal
+        inner = list(pr.proposals)
+        ix = mp.parameters[0]
+        for k in range(ndraws):
+            frm = {ix: min(1, len(inner))}
+            to = mp.jump(frm)
+            mp.logpdf(to, frm)
+            n += 2
+            for q in inner:
+                _ = q.random_generator
+                x = _pt(q.parameters, k)
+                y = q.jump(x)
+                q.logpdf(y, x)
+                b = q.birth_distribution
+                _ = b.random_generator
+                _ = b.random_state
+                z = b.birth
+                b.logpdf(z)
+                n += 4
+            if inner:
+                # the nested proposal itself, from a point with one active component
+                state = numpy.zeros(len(inner), dtype=bool)
+                state[0] = True
+                fromx = {ix: 1, '_state': state}
+                for gi, q in enumerate(inner):
+                    for j, p in enumerate(q.parameters):
+                        fromx[p] = (0.75 + 0.25 * j) if gi == 0 else numpy.nan
+                tox = pr.jump(fromx)
+                pr.logpdf(tox, fromx)
+                n += 2
+    return n
+
+
+PREUSE_CFGS = [
+    ('used-mh-normal', {'nparams': 2, 'props': [('plain', [0], False), ('plain', [1], True)], 'kind': ('mh',),
+                        'nchains': 3, 'seed': 121}, {}),
+    ('used-mh-adaptive-mix', {'nparams': 4, 'props': [('plain', [0, 1], False), ('plain', [2], False),
+                                                      ('plain', [3], False)], 'kind': ('mh',), 'nchains': 2, 'seed': 122},
+     {'family': ['at_adaptive_normal', 'ss_adaptive_normal', 'adaptive_normal']}),
+    ('used-mh-bounded-eigenvector', {'nparams': 4, 'props': [('plain', [0], False), ('plain', [1], False),
+                                                             ('plain', [2, 3], False)], 'kind': ('mh',), 'nchains': 2,
+                                     'seed': 123},
+     {'family': ['bounded_normal', 'adaptive_bounded_normal', 'adaptive_eigenvector'], 'blobs': True}),
+    ('used-pt-one-defaulted', {'nparams': 2, 'props': [('plain', [1], False)], 'kind': ('pt', 3, False), 'nchains': 2,
+                               'seed': 124}, {'swap_interval': 2, 'family': ['ss_adaptive_bounded_normal']}),
+    ('used-pt-annealer-reset', {'nparams': 2, 'props': [('plain', [0], False), ('plain', [1], False)],
+                                'kind': ('pt', 3, True), 'nchains': 2, 'seed': 125},
+     {'family': ['at_adaptive_bounded_normal', 'eigenvector'], 'reset_after_swap': True}),
+    ('used-td-mh', {'nparams': 4, 'props': [('nested', None, 3, [[0], [1], [2]])], 'kind': ('mh',), 'nchains': 2,
+                    'seed': 126}, {}),
+    ('used-td-pt', {'nparams': 4, 'props': [('nested', None, 3, [[1], [2]]), ('plain', [0], False)],
+                    'kind': ('pt', 2, False), 'nchains': 2, 'seed': 127}, {'family': ['adaptive_normal']}),
+    ('used-td-int-seed-mh', {'nparams': 3, 'props': [('nested', 4243, 2, [[0], [1]])], 'kind': ('mh',),
+                             'nchains': 3, 'seed': 0}, {}),
+]
+
+
+def preuse_cases(tier, seed):
+    """[(name, cfg, opts, ndraws)]: the fixed ones plus constructions generated from the seed."""
+    rng = random.Random(seed * 41 + 9)
+    out = [(n, c, o, 1 + (i + seed) % 3) for i, (n, c, o) in enumerate(PREUSE_CFGS)]
+    k = 0
+    want = 2 if tier == 'quick' else 16
+    while k < want:
+        cfg = gen_cfg(rng, allow_bad=False)
+        if not cfg['props']:
+            continue                                   # nothing the user could have touched
+        cfg['nchains'] = max(2, cfg['nchains'])
+        if cfg['seed'] is None:
+            cfg['seed'] = rng.randint(0, 10 ** 6)
+        if cfg['kind'][0] == 'pt' and cfg['kind'][2] and cfg['kind'][1] < 3:
+            cfg['kind'] = ('pt', 3, True)
+        fams = [rng.choice(C07_FAMILIES) for _ in range(4)]
+        opts = {'family': fams, 'blobs': rng.random() < 0.3, 'swap_interval': rng.choice([1, 2]),
+                'reset_after_swap': cfg['kind'][0] == 'pt' and rng.random() < 0.5}
+        out.append(('used-random-%d' % k, cfg, opts, rng.randint(1, 3)))
+        k += 1
+    return out
+
+
+PREUSE_GENS = (None, 5, 6)
+
+
+def preuse_runs(cfg, opts, niter, ndraws, gens=PREUSE_GENS):
+    """Every variant of one pre-use case, in this interpreter: digests by variant name."""
+    out = {}
+    calls = {}
+
+    class UseRaised(Exception):
+        """The harness' own use of a proposal object raised: no statement about the sampler."""
+
+    def use(tag, *a, **k):
+        try:
+            calls[tag] = preuse(*a, **k)
+        except Exception as e:
+            raise UseRaised(repr(e)[:200])
+
+    def record(tag, f):
+        try:
+            out[tag] = sampler_parts(f())
+        except UseRaised as e:
+            out[tag] = {'use_raised': str(e)}
+        except Exception as e:      # reported to the parent, which decides
+            out[tag] = {'error': repr(e)[:300]}
+
+    record('pristine', lambda: run_one(cfg, opts, niter)[0])
+    held = {}
+
+    def draw(props, names):
+        use('draw', props, names, 'draw', ndraws)
+
+    def first():
+        s, info = run_one(cfg, opts, niter, before_sampler=draw)
+        held['props'] = info['user_props']
+        return s
+    record('used', first)
+    if 'props' in held:
+        # a second sampler from the same objects, used once more in between
+        record('reused', lambda: run_one(cfg, opts, niter, before_sampler=draw, user_props=held['props'])[0])
+    for g in gens:
+        held.pop('props', None)
+
+        def upd(props, names, g=g):
+            use('update', props, names, 'update', ndraws + 1, gen=g)
+
+        def firstu():
+            s, info = run_one(cfg, opts, niter, before_sampler=upd)
+            held['props'] = info['user_props']
+            return s
+        record('updated:%s' % g, firstu)
+        if g is None and 'props' in held:
+            record('updated-reused', lambda: run_one(cfg, opts, niter, user_props=held['props'])[0])
+    return out, calls
+
+
+def unpatched_random_generator():
+    """Is `BaseRandom.random_generator` the property the source of the code under test defines?
+    (Other checks, and the draw log of this one, patch it from outside; a run under such a patch
+    says nothing about what the property's own code does.)"""
+    from epsie.proposals import base as pbase
+    prop = pbase.BaseRandom.__dict__.get('random_generator')
+    if not isinstance(prop, property) or prop.fget is None:
+        return False
+    code = getattr(prop.fget, '__code__', None)
+    here = os.path.realpath(pbase.__file__)
+    if here.endswith('.pyc'):
+        here = here[:-1]
+    return code is not None and os.path.realpath(code.co_filename) == here \
+        and os.path.realpath(here).startswith(os.path.realpath(common.REPO) + os.sep)
 
 
 def worker(spec):
@@ -528,6 +768,13 @@ def worker(spec):
             out[name]['parts_rebuilt'] = sampler_parts(s2)
         except Exception as e:
             out[name]['parts_rebuilt'] = {'error': repr(e)[:300]}
+    pre = {}
+    for name, cfg, opts, ndraws in spec.get('preuse', []):
+        runs, calls = preuse_runs(_tuplify(cfg), opts, spec.get('preuse_niter', spec['niter']), ndraws,
+                                  gens=tuple(spec.get('preuse_gens', PREUSE_GENS)))
+        pre[name] = {'runs': runs, 'calls': calls}
+    out['__preuse__'] = pre
+    out['__meta__'] = {'unpatched_random_generator': unpatched_random_generator()}
     return out
 
 
@@ -538,41 +785,170 @@ def _tuplify(cfg):
     return cfg
 
 
-def spawn_sessions(cfgs, sessions, niter, timeout=600):
-    """Run `worker` in independent interpreters. sessions: list of (hashseed, gseed)."""
+def spawn_sessions(cfgs, sessions, niter, timeout=600, preuse_cases=(), preuse_niter=None, preuse_gens=PREUSE_GENS,
+                   preuse_sessions=2, wait=True):
+    """Run `worker` in independent interpreters. sessions: list of (hashseed, gseed).
+    Pre-use case number i is run in `preuse_sessions` of the sessions (i, i+1, ... modulo their number).
+    `wait=False`: return the running sessions (for `collect_sessions`)."""
     procs = []
-    for hs, gs in sessions:
+    nsess = len(sessions)
+    for si, (hs, gs) in enumerate(sessions):
         env = dict(os.environ)
         env['PYTHONHASHSEED'] = str(hs)
         env['OMP_NUM_THREADS'] = '1'
-        spec = json.dumps({'gseed': gs, 'niter': niter, 'cfgs': cfgs})
-        p = subprocess.Popen([common.PY, os.path.abspath(__file__), 'worker'], env=env, stdin=subprocess.PIPE,
-                             stdout=subprocess.PIPE, stderr=subprocess.PIPE, text=True)
-        procs.append((hs, gs, p, spec))
-    outs = []
-    for hs, gs, p, spec in procs:
-        try:
-            so, se = p.communicate(spec, timeout=timeout)
-        except subprocess.TimeoutExpired:
-            p.kill()
-            raise TimeoutError('C04 session PYTHONHASHSEED=%s timed out' % hs)
-        if p.returncode != 0:
-            raise OSError('C04 session PYTHONHASHSEED=%s failed: %s' % (hs, se[-800:]))
-        outs.append(((hs, gs), json.loads(so.strip().splitlines()[-1])))
-    return outs
+        mine = [c for i, c in enumerate(preuse_cases)
+                if si in {(i + d) % nsess for d in range(min(preuse_sessions, nsess))}]
+        spec = json.dumps({'gseed': gs, 'niter': niter, 'cfgs': cfgs, 'preuse': mine,
+                           'preuse_niter': preuse_niter or niter, 'preuse_gens': list(preuse_gens)})
+        procs.append((hs, gs, _start_session('worker', env, spec)))
+    return collect_sessions(procs, timeout) if wait else procs
 
 
-def c04_search(chk, tier):
-    """Returns findings [(key, text, payload)] and fills coverage."""
+def _start_session(mode, env, spec):
+    """A child interpreter that reads its specification from a file (so that the parent need not feed
+    a pipe while it does other work) and writes its result to stdout."""
+    import tempfile
+    fin = tempfile.TemporaryFile('w+')
+    fin.write(spec)
+    fin.flush()
+    fin.seek(0)
+    fout = tempfile.TemporaryFile('w+')
+    ferr = tempfile.TemporaryFile('w+')
+    p = subprocess.Popen([common.PY, os.path.abspath(__file__), mode], env=env, stdin=fin, stdout=fout, stderr=ferr,
+                         text=True)
+    return p, fin, fout, ferr
+
+
+def _finish_session(handle, timeout, what):
+    p, fin, fout, ferr = handle
+    try:
+        p.wait(timeout=timeout)
+    except subprocess.TimeoutExpired:
+        p.kill()
+        raise TimeoutError('%s timed out' % what)
+    finally:
+        fin.close()
+    fout.seek(0)
+    ferr.seek(0)
+    so, se = fout.read(), ferr.read()
+    fout.close()
+    ferr.close()
+    if p.returncode != 0:
+        raise OSError('%s failed: %s' % (what, se[-1200:]))
+    return json.loads(so.strip().splitlines()[-1])
+
+
+def collect_sessions(procs, timeout=600):
+    return [((hs, gs), _finish_session(h, timeout, 'C04 session PYTHONHASHSEED=%s' % hs)) for hs, gs, h in procs]
+
+
+def preuse_compare(pcases, outs, niter, gens=PREUSE_GENS):
+    """Findings and coverage of the pre-use cases. outs: [((hashseed, gseed), worker output)]."""
+    findings = []
+    cov = {'cases': len(pcases), 'iterations': niter, 'sessions_per_case': 0, 'digest_comparisons': 0,
+           'calls_made_on_the_objects_before': 0,
+           'runs': 0, 'vacuous_update_cases': [], 'skipped_because_the_real_code_raised_identically_everywhere': [],
+           'variants': ['pristine', 'used (generator read, jump, logpdf, birth)', 'reused (second sampler, same objects)']
+           + ['updated (own generator: %s)' % ('entropy' if g is None else 'seed %d' % g) for g in gens]
+           + ['updated-reused'],
+           'oracle': 'used = reused = pristine; all updated variants equal; every variant equal across sessions'}
+    for name, cfg, opts, ndraws in pcases:
+        per = [(sess, o['__preuse__'][name]) for sess, o in outs if name in o['__preuse__']]
+        cov['sessions_per_case'] = len(per)
+        base = {'cfg': cfg, 'opts': opts, 'niter': niter, 'ndraws': ndraws, 'manifestation': 'preuse-differs',
+                'gens': list(gens), 'how_to_replay': './check C04 --replay <this file>'}
+        key = 'preuse-differs:' + name
+        r0 = per[0][1]['runs']
+        used_raised = sorted({r['use_raised'] for _, p in per for r in p['runs'].values() if 'use_raised' in r})
+        if used_raised:
+            # the harness' own calls on the proposal objects raised: not a run of the sampler, no verdict
+            cov['skipped_because_the_use_itself_raised'] = cov.get('skipped_because_the_use_itself_raised', []) + [
+                (name, used_raised[0][:120])]
+            continue
+        errs = {t: r['error'] for _, p in per for t, r in p['runs'].items() if 'error' in r}
+        if errs:
+            same_everywhere = all('error' in r for _, p in per for r in p['runs'].values()) and len(set(errs.values())) == 1
+            if same_everywhere:
+                cov['skipped_because_the_real_code_raised_identically_everywhere'].append((name, list(errs.values())[0][:120]))
+            else:
+                t, e = sorted(errs.items())[0]
+                findings.append((key, 'configuration %s (seed %d): the variant `%s` raises while others run (or raise '
+                                 'differently): %s' % (name, cfg['seed'], t, e), dict(base, variant=t)))
+            continue
+        cov['calls_made_on_the_objects_before'] += sum(per[0][1]['calls'].values())
+        cov['runs'] += sum(len(p['runs']) for _, p in per)
+        upd = sorted((t for t in r0 if t.startswith('updated')), key=lambda t: (t != 'updated:None', t))
+        if r0[upd[0]] == r0['pristine']:
+            cov['vacuous_update_cases'].append(name)       # nothing an `update` could change (nested only)
+        done = False
+        for sess, p in per:
+            r = p['runs']
+            for t in ('used', 'reused'):
+                cov['digest_comparisons'] += 1
+                if t in r and r[t] != r['pristine'] and not done:
+                    diff = sorted(k for k in r['pristine'] if r['pristine'][k] != r[t].get(k))
+                    findings.append((key, 'configuration %s (seed %d): the proposals were tried out before the sampler was '
+                                     'built (%d calls: generator read, jump, logpdf, birth)%s; the run gives different %s '
+                                     'than the run with untouched proposal objects (session PYTHONHASHSEED=%d)' % (
+                                         name, cfg['seed'], p['calls'].get('draw', 0),
+                                         ' and this is the second sampler built from them' if t == 'reused' else '',
+                                         ', '.join(diff), sess[0]),
+                                     dict(base, variant=t, session=list(sess), differing_outputs=diff)))
+                    done = True
+            for t in upd[1:]:
+                cov['digest_comparisons'] += 1
+                if r[t] != r[upd[0]] and not done:
+                    diff = sorted(k for k in r[upd[0]] if r[upd[0]][k] != r[t].get(k))
+                    findings.append((key, 'configuration %s (seed %d): the proposals were used and updated (scripted chain) '
+                                     'before the sampler was built; the run depends on the generator the objects had '
+                                     'before (%s vs %s differ in %s; session PYTHONHASHSEED=%d)' % (
+                                         name, cfg['seed'], upd[0], t, ', '.join(diff), sess[0]),
+                                     dict(base, variant=t, session=list(sess), differing_outputs=diff)))
+                    done = True
+            for t in sorted(r) if p is not per[0][1] else []:
+                cov['digest_comparisons'] += 1
+                if r[t] != r0.get(t) and not done:
+                    diff = sorted(k for k in r0[t] if r0[t][k] != r[t].get(k))
+                    findings.append((key, 'configuration %s (seed %d), variant `%s` (proposals used before the sampler was '
+                                     'built): sessions PYTHONHASHSEED=%d and %d produce different %s' % (
+                                         name, cfg['seed'], t, per[0][0][0], sess[0], ', '.join(diff)),
+                                     dict(base, variant=t, sessions=[list(per[0][0]), list(sess)],
+                                          differing_outputs=diff)))
+                    done = True
+    return findings, cov
+
+
+def c04_sessions_start(chk, tier):
+    """Start the independent interpreter sessions of the C04 search (they run while the parent does the
+    in-process part); hand the result to `c04_search`."""
     cfgs = c04_cfgs(tier, chk.seed)
     nsess = 4 if tier == 'quick' else 8
     niter = 24 if tier == 'quick' else 60
     rng = random.Random(chk.seed * 7 + 1)
     sessions = [(k, rng.randint(1, 10 ** 6)) for k in range(nsess)]
-    outs = spawn_sessions(cfgs, sessions, niter)
+    pcases = preuse_cases(tier, chk.seed)
+    pniter = 16 if tier == 'quick' else niter
+    pgens = PREUSE_GENS[:2] if tier == 'quick' else PREUSE_GENS
+    procs = spawn_sessions(cfgs, sessions, niter, preuse_cases=pcases, preuse_niter=pniter, preuse_gens=pgens,
+                           preuse_sessions=2 if tier == 'quick' else 4, wait=False)
+    return {'tier': tier, 'cfgs': cfgs, 'niter': niter, 'sessions': sessions, 'pcases': pcases, 'pniter': pniter,
+            'pgens': pgens, 'procs': procs}
+
+
+def c04_search(chk, tier, started=None):
+    """Returns findings [(key, text, payload)] and fills coverage."""
+    st = started if started is not None and started['tier'] == tier else c04_sessions_start(chk, tier)
+    cfgs, niter, sessions, pcases, pniter, pgens = (st[k] for k in ('cfgs', 'niter', 'sessions', 'pcases', 'pniter', 'pgens'))
+    outs = collect_sessions(st['procs'])
+    if not all(o['__meta__']['unpatched_random_generator'] for _, o in outs):
+        raise RuntimeError('the C04 sessions did not exercise the BaseRandom.random_generator of the code under test '
+                           '(patched from outside, or imported from elsewhere)')
     findings = []
     skipped = []
     ncmp = 0
+    pfind, pcov = preuse_compare(pcases, outs, pniter, pgens)
+    findings += pfind
+    ncmp += pcov['digest_comparisons']
     for name, cfg, opts in cfgs:
         res = [(sess, o[name]) for sess, o in outs]
         errs = [(sess, r['error']) for sess, r in res if 'error' in r]
@@ -624,12 +1000,15 @@ def c04_search(chk, tier):
                                  '(PYTHONHASHSEED=%d, %d) produce different %s' % (name, cfg['seed'], s0[0], s1[0],
                                                                                    ', '.join(diff)), payload))
             break
-    chk.coverage['search'] = {'configurations': len(cfgs), 'sessions': len(sessions),
-                              'iterations': niter, 'digest_comparisons': ncmp,
-                              'session_parameters': [list(s) for s in sessions],
-                              'skipped_because_the_real_code_raised_identically_everywhere': skipped,
-                              'oracle': 'bit-identical digests of positions/stats/blobs/acceptance/swap history/betas/'
-                                        'structural state/generator states across independent interpreter sessions'}
+    chk.coverage.setdefault('search', {}).update({
+        'configurations': len(cfgs), 'sessions': len(sessions),
+        'iterations': niter, 'digest_comparisons': ncmp,
+        'session_parameters': [list(s) for s in sessions],
+        'skipped_because_the_real_code_raised_identically_everywhere': skipped,
+        'sessions_exercise_the_unpatched_random_generator': True,
+        'proposals_used_before_the_sampler_got_them': pcov,
+        'oracle': 'bit-identical digests of positions/stats/blobs/acceptance/swap history/betas/'
+                  'structural state/generator states across independent interpreter sessions'})
     chk.coverage['evaluations'] = chk.coverage.get('evaluations', 0) + ncmp
     return findings
 
@@ -745,17 +1124,29 @@ C07_CFGS = [
                'seed': 207}, {}),
     ('td-pt', {'nparams': 4, 'props': [('nested', 78, 3, [[1], [2]]), ('plain', [0], False)],
                'kind': ('pt', 2, False), 'nchains': 3, 'seed': 208}, {}),
+    # reset_after_swap: every exchange of two levels resets their adaptive proposals to the values they
+    # were constructed with (several proposals of one support class with different initial settings)
+    ('pt-reset-ss-at', {'nparams': 4, 'props': [('plain', [0], False), ('plain', [1], False), ('plain', [2, 3], False)],
+                        'kind': ('pt', 3, False), 'nchains': 3, 'seed': 209},
+     {'family': ['ss_adaptive_normal', 'ss_adaptive_bounded_normal', 'at_adaptive_normal'], 'reset_after_swap': True}),
 ]
 
 
-def c07_run(cfg, opts, pool, niter, salt=0, perturb=None, unshare_annealer=False):
-    """Build, start, run in two `run` calls through `pool`; per-chain digests."""
+def c07_run(cfg, opts, pool, niter, salt=0, perturb=None, unshare_annealer=False, between=None, keep=None):
+    """Build, start, run in two `run` calls through `pool`; per-chain digests.
+    `between(stage)`: called after the sampler is built ('built') and between the two run calls ('mid');
+    `keep`: a dict that receives the build info (the user's proposal objects)."""
     import logging
     logging.disable(logging.WARNING)
     names = [G.pname(i) for i in range(cfg['nparams'])]
     model = G.QuadModel(names, blobs=opts.get('blobs', False))
     s, info = G.build_real(cfg, family=opts.get('family', 'normal'), model=model, pool=pool,
-                           swap_interval=opts.get('swap_interval', 1), rng=random.Random(9))
+                           swap_interval=opts.get('swap_interval', 1), rng=random.Random(9),
+                           reset_after_swap=opts.get('reset_after_swap', False))
+    if keep is not None:
+        keep.update(info)
+    if between is not None:
+        between('built')
     if unshare_annealer and info['annealer'] is not None:
         for c in s.chains:
             c.adaptive_annealer = copy.deepcopy(c.adaptive_annealer)
@@ -769,6 +1160,8 @@ def c07_run(cfg, opts, pool, niter, salt=0, perturb=None, unshare_annealer=False
                 start[p][..., perturb] = numpy.where(numpy.isnan(v), numpy.nan, v + 0.123)
     s.start_position = start
     s.run(niter // 2)
+    if between is not None:
+        between('mid')
     s.run(niter - niter // 2)
     return [chain_parts(c) for c in s.chains], s
 
@@ -796,12 +1189,15 @@ def c07_cfgs(tier, seed):
                 cfg['kind'] = ('pt', 3, True)
             fams = [rng.choice(C07_FAMILIES) for _ in range(4)]
             out.append(('random-%d' % k, cfg, {'family': fams, 'blobs': rng.random() < 0.3,
-                                               'swap_interval': rng.choice([1, 2, 3])}))
+                                               'swap_interval': rng.choice([1, 2, 3]),
+                                               'reset_after_swap': cfg['kind'][0] == 'pt' and rng.random() < 0.5}))
             k += 1
     return out
 
 
 def c07_search(chk, tier):
+    if not unpatched_random_generator():
+        raise RuntimeError('BaseRandom.random_generator is patched from outside while the C07 search runs')
     cfgs = c07_cfgs(tier, chk.seed)
     niter = 24 if tier == 'quick' else 60
     ks = [1, 2, 4] if tier == 'quick' else list(range(1, 17))
@@ -881,13 +1277,404 @@ def c07_search(chk, tier):
     finally:
         for p in procpools:
             p.close()
-    chk.coverage['search'] = {'configurations': len(cfgs), 'iterations': niter, 'process_pool_sizes': ks,
-                              'chain_history_comparisons': ncmp, 'runs_per_pool': hist,
-                              'skipped_because_the_real_code_raised': skipped,
-                              'oracle': 'bit-identical per-chain digests (positions, stats, blobs, acceptance, swap '
-                                        'history, betas, state, generator state) against pool=None; perturbed start of '
-                                        'chain j vs every chain i != j'}
+    chk.coverage.setdefault('search', {}).update({
+        'configurations': len(cfgs), 'with_reset_after_swap': sum(1 for _, _, o in cfgs if o.get('reset_after_swap')),
+        'iterations': niter, 'process_pool_sizes': ks,
+        'chain_history_comparisons': ncmp, 'runs_per_pool': hist,
+        'skipped_because_the_real_code_raised': skipped,
+        'oracle': 'bit-identical per-chain digests (positions, stats, blobs, acceptance, swap '
+                  'history, betas, state, generator state) against pool=None; perturbed start of '
+                  'chain j vs every chain i != j'})
     chk.coverage['evaluations'] = chk.coverage.get('evaluations', 0) + ncmp
+    return findings
+
+
+# --------------------------------------------------------------------------
+# C07: state that lives in a class (one object per process, never pickled)
+# --------------------------------------------------------------------------
+
+ADAPTIVE_FAMILIES = ['adaptive_normal', 'ss_adaptive_normal', 'at_adaptive_normal', 'adaptive_bounded_normal',
+                     'ss_adaptive_bounded_normal', 'at_adaptive_bounded_normal', 'adaptive_eigenvector']
+
+
+def class_state_snapshot():
+    """Digest of every data attribute bound at class level in a class of the epsie package, and of
+    every module-level container there: what all objects of a process share and no pickle carries."""
+    import importlib
+    import pkgutil
+    import epsie
+    for m in pkgutil.walk_packages(epsie.__path__, 'epsie.'):
+        if m.name not in sys.modules:
+            try:
+                importlib.import_module(m.name)
+            except Exception:       # an optional dependency is missing (h5py): nothing to snapshot there
+                pass
+    out = {}
+    plain = (dict, list, set, tuple, frozenset, numpy.ndarray, int, float, bool, str, bytes, type(None), numpy.generic)
+    for mname, mod in sorted(sys.modules.items()):
+        if mod is None or not (mname == 'epsie' or mname.startswith('epsie.')):
+            continue
+        for name, v in sorted(vars(mod).items()):
+            if name.startswith('__'):
+                continue
+            if isinstance(v, type) and (v.__module__ or '').startswith('epsie'):
+                for k, a in sorted(vars(v).items()):
+                    if k.startswith('__') or k == '_abc_impl' or not isinstance(a, plain):
+                        continue
+                    out['%s.%s.%s' % (v.__module__, v.__qualname__, k)] = sha(a)
+            elif isinstance(v, (dict, list, set, numpy.ndarray)):
+                out['%s.%s' % (mname, name)] = sha(v)
+    return out
+
+
+def class_state_diff(before, after):
+    return sorted(k for k in set(before) | set(after) if before.get(k) != after.get(k))
+
+
+def make_decoys(seed):
+    """Unrelated proposals of the adaptive classes, with other initial settings."""
+    rng = random.Random(seed)
+    out = []
+    for fam in ADAPTIVE_FAMILIES:
+        n = 2 if 'eigenvector' in fam or rng.random() < 0.4 else 1
+        out.append(G.make_plain(fam, ['zz%d' % i for i in range(n)], rng))
+    return out
+
+
+def adaptive_state(pr):
+    """The proposal's public state without clock and generator: the parameters of its jump law and
+    of its adaptation."""
+    return {k: v for k, v in pr.state.items() if k not in ('nsteps', 'random_state', 'start_step', 'ind')}
+
+
+def levels_of(ch):
+    return list(ch.chains) if hasattr(ch, 'chains') else [ch]
+
+
+def reset_crosstalk(name, cfg, opts, niter):
+    """Several adaptive proposals in one chain (different classes of one support family, different
+    initial settings): run, then reset every level's proposals; each proposal must be back at the
+    parameters *it* was constructed with (read from the user's own, untouched object).
+    Returns (findings, number of resets compared, number that had adapted away, distinct settings?)."""
+    keep = {}
+    _, s = c07_run(cfg, dict(opts, reset_after_swap=True), None, niter, keep=keep)
+    user = {frozenset(p.parameters): p for p in keep['user_props']}
+    findings = []
+    nres = nadapted = 0
+    inits = {}
+    for ci, ch in enumerate(s.chains):
+        for ti, lvl in enumerate(levels_of(ch)):
+            before = {frozenset(pr.parameters): sha(adaptive_state(pr)) for pr in lvl.proposal_dist.proposals
+                      if frozenset(pr.parameters) in user and hasattr(pr, '_reset_adaptation')}
+            lvl.reset_proposals()
+            for pr in lvl.proposal_dist.proposals:
+                key = frozenset(pr.parameters)
+                if key not in before:
+                    continue
+                want, got = adaptive_state(user[key]), adaptive_state(pr)
+                inits[key] = sha({k: v for k, v in want.items() if k in ('std', 'cov')})
+                nres += 1
+                nadapted += before[key] != sha(want)
+                if sha(want) != sha(got) and not findings:
+                    diff = sorted(k for k in want if sha(want[k]) != sha(got.get(k)))
+                    other = [sorted(k2) for k2, u in user.items() if k2 != key and hasattr(u, '_reset_adaptation')
+                             and any(sha(adaptive_state(u).get(k)) == sha(got.get(k)) for k in diff)]
+                    findings.append(('reset-crosstalk:' + name,
+                                     '%s: after `reset_proposals` the %s over %s of chain %d level %d has %s = %s; it was '
+                                     'constructed with %s%s' % (
+                                         name, type(pr).__name__, sorted(key), ci, ti, diff[0],
+                                         numpy.array2string(numpy.asarray(got.get(diff[0])), precision=4).replace('\n', ''),
+                                         numpy.array2string(numpy.asarray(want[diff[0]]), precision=4).replace('\n', ''),
+                                         (' (that is what the proposal over %s of the same chain was constructed with)'
+                                          % other[0]) if other else ''),
+                                     {'cfg': cfg, 'opts': dict(opts, reset_after_swap=True), 'niter': niter,
+                                      'manifestation': 'reset-crosstalk', 'chain': ci, 'level': ti,
+                                      'params': sorted(key), 'differing': diff,
+                                      'how_to_replay': './check C07 --replay <this file>'}))
+    return findings, nres, nadapted, len(set(inits.values())) > 1
+
+
+def decoy_independence(name, cfg, opts, niter, seed, whens=('before', 'built', 'mid')):
+    """The same sampler with and without unrelated proposal objects made elsewhere in the process
+    (before the sampler, after it was built, between two `run` calls; 'built+mid': both in one run):
+    bit-identical chains."""
+    findings = []
+    ncmp = 0
+    ref, _ = c07_run(cfg, opts, None, niter)
+    held = []
+    for when in whens:
+        if when == 'before':
+            held.append(make_decoys(seed))
+            got, _ = c07_run(cfg, opts, None, niter)
+        else:
+            got, _ = c07_run(cfg, opts, None, niter,
+                             between=lambda stage, when=when: held.append(make_decoys(seed + len(held)))
+                             if stage in when.split('+') else None)
+        ncmp += len(ref)
+        bad = [i for i in range(len(ref)) if ref[i] != got[i]]
+        if bad:
+            diff = sorted(k for k in ref[bad[0]] if ref[bad[0]][k] != got[bad[0]].get(k))
+            findings.append(('unrelated-objects:' + name,
+                             '%s: chain(s) %s change when unrelated adaptive proposals (other parameters, other initial '
+                             'settings) are constructed in the process %s (differing outputs of chain %d: %s)' % (
+                                 name, bad, {'before': 'before the sampler is built', 'built': 'after the sampler was built',
+                                             'mid': 'between two run calls',
+                                             'built+mid': 'after the sampler was built and between two run calls'}[when],
+                                 bad[0], ', '.join(diff)),
+                             {'cfg': cfg, 'opts': opts, 'niter': niter, 'manifestation': 'unrelated-objects', 'when': when,
+                              'decoy_seed': seed, 'whens': list(whens), 'chains': bad,
+                              'how_to_replay': './check C07 --replay <this file>'}))
+            break
+    return findings, ncmp
+
+
+# ---- pools that exist before anything else does
+
+def _indexed(task):
+    i, f, a = task
+    return i, f(a)
+
+
+class ProcMap:
+    """`map` through an existing multiprocessing pool: default chunking, a given chunk size, or the
+    tasks submitted one by one in reversed order (another schedule), results in index order."""
+
+    def __init__(self, pool, label, chunksize=None, reverse_submit=False, timeout=240):
+        self.pool, self.name, self.chunksize, self.reverse_submit, self.timeout = pool, label, chunksize, reverse_submit, timeout
+
+    def map(self, f, args):
+        import pickle
+        from multiprocessing.pool import MaybeEncodingError
+        args = list(args)
+        try:
+            if self.reverse_submit:
+                hs = [self.pool.apply_async(_indexed, ((i, f, a),)) for i, a in reversed(list(enumerate(args)))]
+                res = dict(h.get(timeout=self.timeout) for h in hs)
+                return [res[i] for i in range(len(args))]
+            return self.pool.map_async(f, args, chunksize=self.chunksize).get(timeout=self.timeout)
+        except multiprocessing.TimeoutError:
+            raise TimeoutError('%s did not return within %d s' % (self.name, self.timeout))
+        except (MaybeEncodingError, pickle.PicklingError, BrokenPipeError, EOFError) as e:
+            raise OSError('%s: transport failure %r' % (self.name, e))
+
+
+POOLFIRST_CFGS = [
+    ('poolfirst-pt-reset-ss-at', {'nparams': 3, 'props': [('plain', [0], False), ('plain', [1, 2], False)],
+                                  'kind': ('pt', 3, False), 'nchains': 3, 'seed': 221},
+     {'family': ['ss_adaptive_normal', 'at_adaptive_normal'], 'reset_after_swap': True}),
+    ('poolfirst-pt-reset-ss-two-settings-ladder', {'nparams': 3, 'props': [('plain', [0], False), ('plain', [1], False),
+                                                                            ('plain', [2], False)],
+                                                   'kind': ('pt', 4, True), 'nchains': 3, 'seed': 222},
+     {'family': ['ss_adaptive_normal', 'ss_adaptive_bounded_normal', 'at_adaptive_bounded_normal'],
+      'reset_after_swap': True, 'blobs': True}),
+    ('poolfirst-pt-reset-veitch-eigenvector', {'nparams': 3, 'props': [('plain', [0], False), ('plain', [1, 2], False)],
+                                               'kind': ('pt', 3, False), 'nchains': 2, 'seed': 223},
+     {'family': ['adaptive_normal', 'adaptive_eigenvector'], 'reset_after_swap': True, 'swap_interval': 2}),
+    ('poolfirst-mh-adaptive', {'nparams': 3, 'props': [('plain', [0], False), ('plain', [1], False)],
+                               'kind': ('mh',), 'nchains': 4, 'seed': 224},
+     {'family': ['ss_adaptive_normal', 'at_adaptive_normal']}),
+]
+
+
+def poolfirst_cases(tier, seed):
+    out = list(POOLFIRST_CFGS) if tier != 'quick' else [c for c in POOLFIRST_CFGS if c[2].get('reset_after_swap')]
+    rng = random.Random(seed * 23 + 11)
+    k = 0
+    want = 1 if tier == 'quick' else 10
+    while k < want:
+        cfg = gen_cfg(rng, allow_bad=False)
+        if not any(p[0] == 'plain' for p in cfg['props']):
+            continue
+        cfg['nchains'] = max(2, cfg['nchains'])
+        cfg['seed'] = rng.randint(0, 10 ** 6)
+        cfg['props'] = [(p[0], p[1] if p[1] is not None else 950 + k, p[2], p[3]) if p[0] == 'nested' else p
+                        for p in cfg['props']]
+        nt = rng.randint(2, 4)
+        cfg['kind'] = ('pt', max(nt, 3), True) if rng.random() < 0.4 else ('pt', nt, False)
+        fams = [rng.choice(ADAPTIVE_FAMILIES) for _ in range(4)]
+        out.append(('poolfirst-random-%d' % k, cfg, {'family': fams, 'blobs': rng.random() < 0.3,
+                                                     'swap_interval': rng.choice([1, 2]), 'reset_after_swap': True}))
+        k += 1
+    return out
+
+
+def poolfirst_worker(spec):
+    """One fresh interpreter in the order of a user's script: the pools are created first — nothing of
+    epsie is imported yet, no proposal exists — then the samplers are built and run serially and
+    through every pool."""
+    import logging
+    import warnings
+    assert not any(m == 'epsie' or m.startswith('epsie.') for m in sys.modules), 'epsie imported before the pools'
+    pools, unavailable = [], []
+    for method, k in spec['pools']:
+        try:
+            ctx = multiprocessing.get_context(method)
+        except ValueError:
+            unavailable.append(method)
+            continue
+        pools.append((method, k, ctx.Pool(k)))
+    logging.disable(logging.WARNING)
+    warnings.filterwarnings('ignore')
+    numpy.seterr(all='ignore')
+    out = {'__meta__': {'unavailable_start_methods': unavailable}}
+    try:
+        import epsie  # noqa: F401
+        import epsie.samplers  # noqa: F401
+        import epsie.proposals  # noqa: F401
+        snap0 = class_state_snapshot()
+        for name, cfg, opts in spec['cfgs']:
+            cfg = _tuplify(cfg)
+            res = {'pools': {}}
+            try:
+                res['ref'] = c07_run(cfg, opts, None, spec['niter'])[0]
+            except REAL_CODE_ERRORS as e:
+                out[name] = {'error': repr(e)[:200]}
+                continue
+            if opts.get('reset_after_swap'):
+                plain = c07_run(cfg, dict(opts, reset_after_swap=False), None, spec['niter'])[0]
+                res['resets_effective'] = plain != res['ref']
+            for method, k, pool in pools:
+                variants = [('%s Pool(%d) created first' % (method, k), None, False)]
+                if k >= 2 and method == 'fork':
+                    variants += [('%s Pool(%d) created first, chunksize 2' % (method, k), 2, False),
+                                 ('%s Pool(%d) created first, tasks submitted in reverse' % (method, k), None, True)]
+                for label, cs, rev in variants:
+                    try:
+                        res['pools'][label] = c07_run(cfg, opts, ProcMap(pool, label, cs, rev), spec['niter'])[0]
+                    except REAL_CODE_ERRORS as e:
+                        res['pools'][label] = {'error': repr(e)[:200]}
+            out[name] = res
+        out['__meta__']['class_state_changed'] = class_state_diff(snap0, class_state_snapshot())
+        out['__meta__']['class_state_entries'] = len(snap0)
+        out['__meta__']['unpatched_random_generator'] = unpatched_random_generator()
+    finally:
+        for _, _, pool in pools:
+            pool.terminate()
+            pool.join()
+    return out
+
+
+def poolfirst_session(cases, pools, niter, hashseed=0, timeout=600, wait=True):
+    env = dict(os.environ)
+    env['PYTHONHASHSEED'] = str(hashseed)
+    env['OMP_NUM_THREADS'] = '1'
+    spec = json.dumps({'cfgs': cases, 'pools': pools, 'niter': niter})
+    h = _start_session('poolfirst', env, spec)
+    return _finish_session(h, timeout, 'C07 pool-first session') if wait else h
+
+
+def poolfirst_start(chk, tier):
+    """Start the pool-first session (it runs while the parent searches in process)."""
+    cases = poolfirst_cases(tier, chk.seed)
+    niter = 20 if tier == 'quick' else 60
+    pools = [('fork', 1), ('fork', 2), ('spawn', 2)] if tier == 'quick' else \
+        [('fork', 1), ('fork', 2), ('fork', 3), ('spawn', 1), ('spawn', 2), ('forkserver', 2)]
+    return {'tier': tier, 'cases': cases, 'niter': niter, 'pools': pools,
+            'handle': poolfirst_session(cases, pools, niter, hashseed=chk.seed % 5, wait=False)}
+
+
+def poolfirst_search(chk, tier, started=None):
+    st = started if started is not None and started['tier'] == tier else poolfirst_start(chk, tier)
+    cases, niter, pools = st['cases'], st['niter'], st['pools']
+    out = _finish_session(st['handle'], 900, 'C07 pool-first session')
+    meta = out['__meta__']
+    if not meta.get('unpatched_random_generator', False):
+        raise RuntimeError('the C07 pool-first session did not exercise the code under test unpatched')
+    findings = []
+    ncmp = 0
+    hist = {}
+    skipped = []
+    effective = 0
+    for name, cfg, opts in cases:
+        r = out[name]
+        if 'error' in r:
+            skipped.append((name, r['error'][:120]))
+            continue
+        effective += bool(r.get('resets_effective'))
+        for label, got in sorted(r['pools'].items()):
+            hist[label] = hist.get(label, 0) + 1
+            base = {'cfg': cfg, 'opts': opts, 'niter': niter, 'pool': label, 'pools': pools, 'pool_first': True,
+                    'manifestation': 'serial-vs-pool', 'how_to_replay': './check C07 --replay <this file>'}
+            if isinstance(got, dict):
+                findings.append(('pool-dependence:%s' % name, '%s: runs under pool=None but raises under %s: %s' % (
+                    name, label, got['error']), base))
+                break
+            ncmp += len(r['ref'])
+            bad = [i for i in range(len(r['ref'])) if r['ref'][i] != got[i]]
+            if bad:
+                diff = sorted(k for k in r['ref'][bad[0]] if r['ref'][bad[0]][k] != got[bad[0]].get(k))
+                findings.append(('pool-dependence:%s' % name,
+                                 '%s%s: chain(s) %s differ between pool=None and %s (the pool existed before the sampler and '
+                                 'its proposals were built) after %d iterations (differing outputs of chain %d: %s)' % (
+                                     name, ' (reset_after_swap=True)' if opts.get('reset_after_swap') else '', bad, label,
+                                     niter, bad[0], ', '.join(diff)), dict(base, chains=bad)))
+                break
+    if meta.get('class_state_changed'):
+        findings.append(('class-state-mutated', 'building and running samplers changed class-level / module-level attributes of '
+                         'the package (state shared by every object of the process, absent from every pickle): %s' % (
+                             ', '.join(meta['class_state_changed'][:4]),),
+                         {'cfg': cases[0][1], 'opts': cases[0][2], 'niter': niter, 'manifestation': 'class-state',
+                          'attributes': meta['class_state_changed']}))
+    for name, cfg, opts in cases[:1]:
+        if 'ref' in out.get(name, {}):
+            chk.samples.append({'pool_first_case': name, 'cfg': cfg, 'opts': opts, 'serial_chain_0': out[name]['ref'][0],
+                                'equal_to_serial': {l: (not isinstance(g, dict)) and g == out[name]['ref']
+                                                    for l, g in out[name]['pools'].items()}})
+    chk.coverage.setdefault('search', {})['pools_created_before_the_sampler'] = {
+        'configurations': len(cases), 'with_reset_after_swap': sum(1 for _, _, o in cases if o.get('reset_after_swap')),
+        'with_resets_that_changed_the_serial_run': effective, 'pools': ['%s Pool(%d)' % tuple(p) for p in pools],
+        'unavailable_start_methods': meta['unavailable_start_methods'], 'runs_per_pool': hist,
+        'chain_history_comparisons': ncmp, 'skipped_because_the_real_code_raised': skipped,
+        'class_level_attributes_compared_before_and_after': meta.get('class_state_entries', 0),
+        'session': 'one fresh interpreter: pools first (epsie not yet imported), then samplers'}
+    chk.coverage['evaluations'] = chk.coverage.get('evaluations', 0) + ncmp
+    return findings
+
+
+def class_state_search(chk, tier):
+    """In this process: reset cross-talk inside a chain, independence of unrelated objects, class-level
+    attributes before / after."""
+    if not unpatched_random_generator():
+        raise RuntimeError('BaseRandom.random_generator is patched from outside while the C07 search runs')
+    niter = 20 if tier == 'quick' else 60
+    whens = ('built+mid',) if tier == 'quick' else ('before', 'built', 'mid')
+    findings = []
+    snap0 = class_state_snapshot()
+    cases = [(n, c, o) for n, c, o in c07_cfgs(tier, chk.seed) + poolfirst_cases(tier, chk.seed)
+             if c['kind'][0] == 'pt' and o.get('reset_after_swap')]
+    if tier == 'quick':
+        cases = cases[:3] + cases[-1:]          # the last one is generated from the seed
+    nres = nadapt = ndistinct = ncmp = 0
+    skipped = []
+    for name, cfg, opts in cases:
+        try:
+            f, a, b, distinct = reset_crosstalk(name, cfg, opts, niter)
+            findings += f
+            nres += a
+            nadapt += b
+            ndistinct += distinct
+            f, n = decoy_independence(name, cfg, opts, niter, chk.seed * 3 + 70, whens)
+            findings += f
+            ncmp += n
+        except REAL_CODE_ERRORS as e:
+            skipped.append((name, repr(e)[:120]))
+    changed = class_state_diff(snap0, class_state_snapshot())
+    if changed:
+        findings.append(('class-state-mutated', 'building and running samplers changed class-level / module-level attributes of '
+                         'the package (state shared by every object of the process, absent from every pickle): %s' % (
+                             ', '.join(changed[:4]),),
+                         {'cfg': cases[0][1], 'opts': cases[0][2], 'niter': niter, 'manifestation': 'class-state',
+                          'attributes': changed}))
+    chk.coverage.setdefault('search', {})['class_level_state'] = {
+        'configurations': len(cases), 'resets_compared_with_the_constructed_values': nres,
+        'of_which_had_adapted_away_before_the_reset': nadapt,
+        'configurations_with_distinct_initial_settings_in_one_chain': ndistinct,
+        'unrelated_object_comparisons': ncmp, 'class_level_attributes_compared_before_and_after': len(snap0),
+        'skipped_because_the_real_code_raised': skipped,
+        'oracle': 'after a reset the public state of each adaptive proposal (without clock and generator) equals that '
+                  'of the user\'s untouched object it was copied from; chains bit-identical with / without unrelated '
+                  'proposals constructed before / after the sampler / between runs; class-level attributes unchanged'}
+    chk.coverage['evaluations'] = chk.coverage.get('evaluations', 0) + nres + ncmp
     return findings
 
 
@@ -959,7 +1746,7 @@ def report(chk, proof_ok, divs, findings, suite='streams'):
     findings = [f for f in findings if f[0] != 'harness-note']
     grouped = {}
     prio = {'sessions-differ': 0, 'serial-vs-pool': 1, 'perturbation': 2, 'rebuild-differs': 3, 'foreign-stream': 4,
-            'same-stream': 5}
+            'same-stream': 5, 'preuse-differs': 3}
     findings = sorted(findings, key=lambda f: prio.get(f[2].get('manifestation'), 9))     # stable
     # one violation per family of keys (`sessions-differ:*`, `pool-dependence:*`, ...): the key reported is
     # the family's first configuration in name order, the payload lists every affected configuration
@@ -1020,6 +1807,38 @@ def replay(path):
     cfg = _tuplify(cfg)
     opts = d.get('opts', {})
     man = d.get('manifestation')
+    if man == 'reset-crosstalk':
+        f, nres, nadapt, _ = reset_crosstalk('replay', cfg, opts, d.get('niter', 24))
+        for _, t, _ in f:
+            print(t)
+        print('%d resets compared with the constructed values (%d had adapted away): %s' % (
+            nres, nadapt, 'DIFFER' if f else 'all restored'))
+        return 1 if f else 0
+    if man == 'unrelated-objects':
+        f, n = decoy_independence('replay', cfg, opts, d.get('niter', 24), d.get('decoy_seed', 70),
+                                  tuple(d.get('whens', ('before', 'built', 'mid'))))
+        for _, t, _ in f:
+            print(t)
+        print('%d chain histories compared with / without unrelated proposals: %s' % (n, 'DIFFER' if f else 'identical'))
+        return 1 if f else 0
+    if man == 'class-state':
+        import epsie.proposals  # noqa: F401
+        import epsie.samplers  # noqa: F401
+        snap0 = class_state_snapshot()
+        c07_run(cfg, opts, None, d.get('niter', 24))
+        changed = class_state_diff(snap0, class_state_snapshot())
+        print('class-level / module-level attributes changed by building and running a sampler: %s' % (changed or 'none'))
+        return 1 if changed else 0
+    if man == 'serial-vs-pool' and d.get('pool_first'):
+        out = poolfirst_session([('replay', cfg, opts)], d.get('pools', [['fork', 2], ['spawn', 2]]), d.get('niter', 24))
+        r = out['replay']
+        bad_any = False
+        for label, got in sorted(r.get('pools', {}).items()):
+            bad = got if isinstance(got, dict) else [i for i in range(len(r['ref'])) if r['ref'][i] != got[i]]
+            bad_any = bad_any or bool(bad)
+            print('pool=None vs %s: differing chains %s' % (label, bad))
+        print('class-level attributes changed: %s' % (out['__meta__'].get('class_state_changed') or 'none'))
+        return 1 if bad_any else 0
     if d.get('property') == 'C07' or man in ('serial-vs-pool', 'perturbation'):
         niter = d.get('niter', 24)
         un = d.get('unshare', False)
@@ -1033,6 +1852,18 @@ def replay(path):
             got, _ = c07_run(cfg, opts, CopyPool(), niter, unshare_annealer=un)
             bad = [i for i in range(len(ref)) if ref[i] != got[i]]
             print('pool=None vs deep-copying map: differing chains %s' % bad)
+        return 1 if bad else 0
+    if man == 'preuse-differs':
+        runs, calls = preuse_runs(cfg, opts, d.get('niter', 24), d.get('ndraws', 1),
+                                  gens=tuple(d.get('gens', PREUSE_GENS)))
+        for t in sorted(runs):
+            print('%-16s %s' % (t, runs[t].get('error') or ' '.join('%s=%s' % kv for kv in sorted(runs[t].items()))))
+        upd = sorted((t for t in runs if t.startswith('updated')), key=lambda t: (t != 'updated:None', t))
+        bad = [t for t in ('used', 'reused') if runs.get(t) != runs['pristine']] + \
+              [t for t in upd[1:] if runs[t] != runs[upd[0]]]
+        print('calls made on the objects before the sampler got them: %s' % calls)
+        print('variants that differ from their reference (pristine / %s): %s' % (upd[0], bad or 'none'))
+        print('unpatched BaseRandom.random_generator: %s' % unpatched_random_generator())
         return 1 if bad else 0
     if man == 'rebuild-differs':
         a, _ = run_one(cfg, opts, d.get('niter', 24))
@@ -1060,3 +1891,6 @@ if __name__ == '__main__':
     if len(sys.argv) > 1 and sys.argv[1] == 'worker':
         spec = json.loads(sys.stdin.read())
         print(json.dumps(worker(spec)))
+    elif len(sys.argv) > 1 and sys.argv[1] == 'poolfirst':
+        spec = json.loads(sys.stdin.read())
+        print(json.dumps(poolfirst_worker(spec)))
